@@ -16,7 +16,8 @@ CONSTANTS
   ActorOf <- MCActorOf
 INIT Init
 NEXT Next
-VIEW View
+VIEW noopView
+CONSTRAINT NoopBound1
 ACTION_CONSTRAINT Edge
 INVARIANTS TypeOK RefinesA Converge MergeLaws Hybrid DupNoop StaleNoop ValidateOpOK ValidateMergeSym ValidateMergeOKorKF CtxOK FreshDot
 CHECK_DEADLOCK FALSE
